@@ -1,7 +1,7 @@
 //! probe stage (to be replaced by the full harness)
 use domain::base::name::ParsedName;
 use domain::dep::octseq::Parser;
-use domain::new::base::build::{BuildInMessage, MessageBuilder, NameCompressor};
+use domain::new::base::build::{AsBytes, BuildInMessage, MessageBuilder, NameCompressor};
 use domain::new::base::name::{Name, NameBuf, RevNameBuf};
 use domain::new::base::parse::SplitMessageBytes;
 use domain::new::base::wire::{ParseBytes, U16};
@@ -63,10 +63,24 @@ fn main() {
         let r1 = b.push_question(&q1).is_ok();
         let q2 = Question::<RevNameBuf> { qname: "de.".parse().unwrap(), qtype: QType::A, qclass: QClass::IN };
         let r2 = b.push_question(&q2).is_ok();
-        let q3 = Question::<NameBuf> { qname: "de.".parse().unwrap(), qtype: QType::A, qclass: QClass::IN };
+        let nb: NameBuf = "de.".parse().unwrap();
+        let q3 = Question::<&Name> { qname: &*nb, qtype: QType::A, qclass: QClass::IN };
         let r3 = b.push_question(&q3).is_ok();
         format!("{} {} {} {}", r1, r2, r3, hex(&b.message().contents))
     });
     println!("trunc-then-push {:?}", r);
+    for base in [16350usize, 16360, 16365, 16370, 16372, 16380, 16383, 16384] {
+        let r = catch(move || {
+            let mut buf = vec![0u8; 17000];
+            let mut comp = NameCompressor::default();
+            let a = wire(&[b"a", b"example"]); let b2 = wire(&[b"b", b"example"]);
+            let na: &Name = <&Name>::parse_bytes(&a).unwrap();
+            let nb: &Name = <&Name>::parse_bytes(&b2).unwrap();
+            let o1 = na.build_in_message(&mut buf[12..], base, &mut comp).unwrap();
+            let o2 = nb.build_in_message(&mut buf[12..], o1, &mut comp).unwrap();
+            format!("second name bytes {} old={:?} new={:?}", hex(&buf[12 + o1..12 + o2]), old_name(&buf[..12 + o2], 12 + o1), new_name(&buf[..12 + o2], 12 + o1))
+        });
+        println!("base {} -> {:?}", base, r);
+    }
     let _ = (Rng::new(1), QClass::IN);
 }
